@@ -314,6 +314,7 @@ func muxedOpeners(conns [2]network.MuxedConn) ([2]streamOpener, [2]streamAccepto
 }
 
 func TestL4YamuxStreams(t *testing.T) {
+	defer noteFailure(t)
 	name := t.Name()
 	hx.Check(t, 500, 16000, 0, func(rt *rapid.T) {
 		c := &muxCase{Layer: "yamux"}
